@@ -4,6 +4,7 @@ import (
 	"fmt"
 	"os"
 	"runtime/debug"
+	"strconv"
 	"strings"
 	"time"
 
@@ -148,6 +149,12 @@ func (r *R) onStep(site string) {
 	r.Logical++
 	if r.inOp {
 		r.opSteps++
+		if (r.opSteps > StepBudget || r.opSteps&255 == 0) && inGoBody(site) {
+			// a site inside a goroutine the library started (the splice lexer): a panic raised
+			// there cannot be recovered by the operation's caller and would kill the process.
+			// The operation's own goroutine raises it at its next event.
+			return
+		}
 		if r.opSteps > StepBudget {
 			// The panic unwinds through the library's deferred closures, which are hooked too:
 			// re-raising in each of them makes the unwinding of a deep recursion quadratic.
@@ -164,6 +171,22 @@ func (r *R) onStep(site string) {
 			panic(budgetExceeded{site + " (wall-clock trigger)"})
 		}
 	}
+}
+
+// inGoBody: does the site lie inside a function literal started by a go statement of the
+// library (static partition computed by the instrumenter)?
+func inGoBody(site string) bool {
+	i := strings.LastIndexByte(site, ':')
+	if i <= 0 {
+		return false
+	}
+	line, _ := strconv.Atoi(site[i+1:])
+	for _, g := range zzsimhook.GoBodyRanges {
+		if g.File == site[:i] && line >= g.From && line <= g.To {
+			return true
+		}
+	}
+	return false
 }
 
 // StepNo is the index of the current step.
